@@ -95,6 +95,7 @@ type histGen struct {
 	sameTarget bool    // round trips always go back into the sketch's own store spec
 	running    float64 // upper bound of the weight the main sketch holds
 	comp       []float64 // upper bound of the weight each live companion holds
+	identityCM bool      // mapping changes are identity conversions only (equal mapping, scale 1): an exact copy
 }
 
 // withCompanions makes the generator keep copies alive next to the sketch: they keep being used, are merged
@@ -224,8 +225,15 @@ func (h *histGen) gen(n int) []skOp {
 			if h.r.P(0.3) {
 				scale = h.r.LogUniform(1e-3, 1e3)
 			}
-			if h.r.P(0.15) {
+			if h.r.P(0.15) || h.identityCM {
 				nm, scale = h.m, 1
+				if h.r.Bool() {
+					// an equal mapping, but another object
+					if mm, err := gen.NewMapGamma(h.m.Kind, h.m.Gamma, h.m.Offset); err == nil && mm.M.Equals(h.m.M) {
+						mm.Alpha = h.m.Alpha
+						nm = mm
+					}
+				}
 			}
 			ok := true
 			gOld := (1 + h.m.M.RelativeAccuracy()) / (1 - h.m.M.RelativeAccuracy())
